@@ -97,7 +97,7 @@ def _eqv(E, x, y):
     return E.eq(x, y)
 
 
-def c13_analysis(E, names=QUICK, sym=(("EX_A",), ("DM_B",)), objectives=("DM_B:max", "DM_B:min", "empty:min"),
+def c13_analysis(E, names=QUICK, sym=(("EX_A",), ("DM_B",)), objectives=("DM_B:max", "DM_B:min", "empty:min", "unset:min"),
                  pre_ko=("none", "g3")):
     env.for_path(E)
     name = E.pick("analysis", list(names))
@@ -107,6 +107,9 @@ def c13_analysis(E, names=QUICK, sym=(("EX_A",), ("DM_B",)), objectives=("DM_B:m
     objective = E.pick("objective", list(objectives))
     if objective.startswith("DM_B"):
         m.objective = "DM_B"
+    elif objective.startswith("unset"):
+        pass        # the model never had an objective assigned (GLPK reports the integer 0, not the float 0.0 it
+                    # reports for an objective that was assigned empty; code comparing the expression with 0 differs)
     else:
         from optlang.symbolics import Zero
         m.objective = m.problem.Objective(Zero, sloppy=True)
@@ -144,7 +147,7 @@ def c13_analysis(E, names=QUICK, sym=(("EX_A",), ("DM_B",)), objectives=("DM_B:m
 
 def c13_thorough(E):
     return c13_analysis(E, names=list(ANALYSES), sym=(("EX_A", "R1"), ("DM_B", "R2"), ("EX_A", "DM_B")),
-                        objectives=("DM_B:max", "DM_B:min", "empty:min", "empty:max"), pre_ko=("none", "g3", "g1"))
+                        objectives=("DM_B:max", "DM_B:min", "empty:min", "empty:max", "unset:min"), pre_ko=("none", "g3", "g1"))
 
 
 def c13_geometric(E):
